@@ -901,6 +901,7 @@ func TestVerifC06(t *testing.T) {
 		c06DistTables(rec, st, 4, divisible, 12)
 		c06DistTables(rec, st, 4, whole, 50)
 		c06TakeTables(rec, st, []int{1, 2, 2, 2}, false, 1)
+		c06TakeTables(rec, st, []int{2, 1, 2, 2}, false, 1)
 		for _, d := range [][]int{{1, 2, 2, 2}, {2, 2, 2, 1}, {1, 1, 4, 2}} {
 			c06TakeTables(rec, st, d, true, 16)
 		}
